@@ -1,8 +1,336 @@
 import PyresampleModel.Model.C08
+import PyresampleModel.Proofs.Num
+import Mathlib.Tactic.LinearCombination
 
 /-
-  C08 — property theorems (stub: none yet).
+  C08 — property theorems: EWA maps swath pixels exactly and averages them without inventing values.
+  ll2cr is the target area's own mapping; per grid cell the written value is fill or a weighted mean of valid inputs (within their
+  range, constants preserved), in maximum-weight mode one of the inputs; the dask reduction over input chunks and the shift into
+  output sub-grids reproduce the one-shot result.  The Gaussian weights are parameters (non-negative).
 -/
 namespace PyresampleModel.C08
+
+
+/-! ### ll2cr -/
+
+/-- **ll2cr is the area's own mapping**: for every area (either orientation of either axis) and every projected point, the
+column / row handed to fornav is the fractional array coordinate the area itself assigns to that point -/
+theorem ll2cr_eq_area (a : AreaQ) (x y : Rat) :
+    ll2crPoint (ll2crParams a) (some (x, y)) = some (areaCol a x, areaRow a y) := by
+  simp only [ll2crPoint, ll2crParams, areaCol, areaRow, Option.map_some]
+  congr 2
+  congr 1; ring
+
+/-- points whose projection failed stay fill -/
+theorem ll2cr_fill (p : Rat × Rat × Rat × Rat) : ll2crPoint p none = none := rfl
+
+/-- pixel centres of the area map to their integer indices -/
+theorem ll2cr_centres (a : AreaQ) (hw : a.psx ≠ 0) (hh : a.psy ≠ 0) (i j : Int) :
+    ll2crPoint (ll2crParams a) (some (a.x0 + a.psx / 2 + j * a.psx, a.y1 - a.psy / 2 - i * a.psy)) = some ((j : Rat), (i : Rat)) := by
+  simp only [ll2crPoint, ll2crParams, Option.map_some, Option.some.injEq, Prod.mk.injEq]
+  constructor <;> field_simp <;> ring
+
+/-- the count is the number of non-fill points within one cell of the grid -/
+theorem countIn_spec (w h : Nat) (pts : List (Option (Rat × Rat))) :
+    countIn w h pts = (pts.filterMap id |>.filter (inGrid w h)).length := by
+  induction pts with
+  | nil => rfl
+  | cons p ps ih =>
+    simp only [countIn] at ih ⊢
+    cases p with
+    | none => simpa [List.filter_cons] using ih
+    | some cr =>
+      simp only [List.filter_cons, List.filterMap_cons, id]
+      by_cases hin : inGrid w h cr <;> simp [hin, ih]
+
+/-! ### accumulation -/
+
+theorem accAvg_inv (lo hi : Rat) (cs : List Contrib) (s : Rat × Rat)
+    (hw : ∀ c ∈ cs, 0 ≤ c.1) (hv : ∀ c ∈ cs, ∀ v, c.2 = some v → lo ≤ v ∧ v ≤ hi)
+    (h0 : 0 ≤ s.1 ∧ lo * s.1 ≤ s.2 ∧ s.2 ≤ hi * s.1) :
+    0 ≤ (cs.foldl stepAvg s).1 ∧ lo * (cs.foldl stepAvg s).1 ≤ (cs.foldl stepAvg s).2 ∧
+      (cs.foldl stepAvg s).2 ≤ hi * (cs.foldl stepAvg s).1 := by
+  induction cs generalizing s with
+  | nil => simpa using h0
+  | cons c cs ih =>
+    simp only [List.foldl_cons]
+    apply ih _ (fun c' hc' => hw c' (List.mem_cons_of_mem _ hc')) (fun c' hc' => hv c' (List.mem_cons_of_mem _ hc'))
+    have hc0 := hw c (List.mem_cons_self)
+    cases hcv : c.2 with
+    | none => simp only [stepAvg, hcv]; exact h0
+    | some v =>
+      obtain ⟨hl, hh⟩ := hv c (List.mem_cons_self) v hcv
+      simp only [stepAvg, hcv]
+      refine ⟨by linarith, ?_, ?_⟩
+      · nlinarith [mul_le_mul_of_nonneg_right hl hc0]
+      · nlinarith [mul_le_mul_of_nonneg_right hh hc0]
+
+/-- **no invented values (average mode)**: with non-negative weights, every written value lies within the range of the valid
+contributions -/
+theorem avg_range (lo hi : Rat) (cs : List Contrib) (sumMin : Rat) (out : Rat)
+    (hw : ∀ c ∈ cs, 0 ≤ c.1) (hv : ∀ c ∈ cs, ∀ v, c.2 = some v → lo ≤ v ∧ v ≤ hi)
+    (h : writeCell false sumMin (accAvg cs) = some out) : lo ≤ out ∧ out ≤ hi := by
+  obtain ⟨h0, h1, h2⟩ := accAvg_inv lo hi cs (0, 0) hw hv (by simp)
+  have hsm : 0 < (if sumMin ≤ 0 then EPS else sumMin) := by
+    split
+    · simp [EPS]
+    · linarith
+  simp only [writeCell, Bool.false_eq_true, if_false] at h
+  by_cases hlt : (accAvg cs).1 < (if sumMin ≤ 0 then EPS else sumMin)
+  · rw [if_pos hlt] at h; simp at h
+  · rw [if_neg hlt] at h
+    simp only [Option.some.injEq] at h
+    have hpos : 0 < (accAvg cs).1 := by linarith [not_lt.mp hlt]
+    unfold accAvg at hpos
+    subst h
+    unfold accAvg
+    constructor
+    · rw [le_div_iff₀ hpos]; linarith
+    · rw [div_le_iff₀ hpos]; linarith
+
+/-- a constant field stays constant -/
+theorem avg_const (k : Rat) (cs : List Contrib) (sumMin : Rat) (out : Rat)
+    (hw : ∀ c ∈ cs, 0 ≤ c.1) (hv : ∀ c ∈ cs, ∀ v, c.2 = some v → v = k)
+    (h : writeCell false sumMin (accAvg cs) = some out) : out = k := by
+  have := avg_range k k cs sumMin out hw (fun c hc v hcv => by rw [hv c hc v hcv]; exact ⟨le_refl _, le_refl _⟩) h
+  linarith [this.1, this.2]
+
+theorem accMax_inv (cs : List Contrib) (s : Rat × Rat) (P : Rat × Rat → Prop)
+    (hs : P s) (hstep : ∀ c ∈ cs, ∀ v, c.2 = some v → P (c.1, v)) : P (cs.foldl stepMax s) := by
+  induction cs generalizing s with
+  | nil => simpa using hs
+  | cons c cs ih =>
+    simp only [List.foldl_cons]
+    apply ih _ _ (fun c' hc' => hstep c' (List.mem_cons_of_mem _ hc'))
+    cases hcv : c.2 with
+    | none => simpa [stepMax, hcv] using hs
+    | some v =>
+      simp only [stepMax, hcv]
+      split
+      · exact hstep c (List.mem_cons_self) v hcv
+      · exact hs
+
+/-- **maximum-weight mode writes one of the input values**: the stored pair is (0, 0) (nothing valid) or (weight, value) of one
+valid contribution -/
+theorem max_member (cs : List Contrib) :
+    accMax cs = (0, 0) ∨ ∃ c ∈ cs, ∃ v, c.2 = some v ∧ accMax cs = (c.1, v) := by
+  unfold accMax
+  induction cs using List.reverseRecOn with
+  | nil => left; rfl
+  | append_singleton cs c ih =>
+    rw [List.foldl_append]
+    simp only [List.foldl_cons, List.foldl_nil]
+    cases hcv : c.2 with
+    | none =>
+      simp only [stepMax, hcv]
+      rcases ih with h | ⟨c', hc', v, hv, he⟩
+      · left; exact h
+      · right; exact ⟨c', List.mem_append_left _ hc', v, hv, he⟩
+    | some v =>
+      simp only [stepMax, hcv]
+      split
+      · right; exact ⟨c, by simp, v, hcv, rfl⟩
+      · rcases ih with h | ⟨c', hc', v', hv', he⟩
+        · left; exact h
+        · right; exact ⟨c', List.mem_append_left _ hc', v', hv', he⟩
+
+theorem max_written_is_input (cs : List Contrib) (sumMin out : Rat) (h : writeCell true sumMin (accMax cs) = some out) :
+    ∃ c ∈ cs, c.2 = some out := by
+  have hsm : 0 < (if sumMin ≤ 0 then EPS else sumMin) := by
+    split
+    · simp [EPS]
+    · linarith
+  simp only [writeCell, if_true] at h
+  by_cases hlt : (accMax cs).1 < (if sumMin ≤ 0 then EPS else sumMin)
+  · rw [if_pos hlt] at h; simp at h
+  · rw [if_neg hlt] at h
+    simp only [Option.some.injEq] at h
+    rcases max_member cs with h0 | ⟨c, hc, v, hv, he⟩
+    · exfalso
+      rw [h0] at hlt
+      exact hlt hsm
+    · rw [he] at h
+      simp only at h
+      subst h
+      exact ⟨c, hc, hv⟩
+
+/-! ### chunking is invisible -/
+
+theorem foldl_stepAvg_add (cs : List Contrib) (s : Rat × Rat) :
+    cs.foldl stepAvg s = (s.1 + (cs.foldl stepAvg (0, 0)).1, s.2 + (cs.foldl stepAvg (0, 0)).2) := by
+  induction cs generalizing s with
+  | nil => simp
+  | cons c cs ih =>
+    simp only [List.foldl_cons]
+    rw [ih (stepAvg s c), ih (stepAvg (0, 0) c)]
+    cases hcv : c.2 with
+    | none => simp [stepAvg, hcv]
+    | some v => simp only [stepAvg, hcv, Prod.mk.injEq]; constructor <;> ring
+
+/-- **average mode**: summing the per-chunk (weights, accums) of any split of the contributions, in order, is the one-shot result -/
+theorem combineAvg_eq_oneshot (chunks : List (List Contrib)) :
+    combineAvg (chunks.map accAvg) = accAvg chunks.flatten := by
+  unfold combineAvg accAvg
+  induction chunks using List.reverseRecOn with
+  | nil => rfl
+  | append_singleton cs c ih =>
+    rw [List.map_append, List.foldl_append, List.flatten_append, List.foldl_append, ih]
+    simp only [List.map_cons, List.map_nil, List.foldl_cons, List.foldl_nil, List.flatten_cons, List.flatten_nil, List.append_nil]
+    rw [foldl_stepAvg_add c (List.foldl stepAvg (0, 0) cs.flatten)]
+
+theorem stepMax_mono (cs : List Contrib) (s : Rat × Rat) : s.1 ≤ (cs.foldl stepMax s).1 := by
+  induction cs generalizing s with
+  | nil => simp
+  | cons c cs ih =>
+    simp only [List.foldl_cons]
+    refine le_trans ?_ (ih _)
+    cases hcv : c.2 with
+    | none => simp [stepMax, hcv]
+    | some v =>
+      simp only [stepMax, hcv]
+      split <;> simp
+      linarith
+
+/-- continuing a maximum-weight scan from a state `s` = taking the scan of the rest from scratch if it reaches a strictly larger
+weight, else keeping `s` (first-wins on ties) -/
+theorem foldl_stepMax_from (cs : List Contrib) (s : Rat × Rat) (hs : 0 ≤ s.1) :
+    cs.foldl stepMax s = if (cs.foldl stepMax (0, 0)).1 > s.1 then cs.foldl stepMax (0, 0) else s := by
+  induction cs generalizing s with
+  | nil => simp; intro h; linarith
+  | cons c cs ih =>
+    simp only [List.foldl_cons]
+    cases hcv : c.2 with
+    | none => simp only [stepMax, hcv]; exact ih s hs
+    | some v =>
+      simp only [stepMax, hcv]
+      by_cases hgt : c.1 > s.1
+      · have hc0 : c.1 > 0 := by linarith
+        simp only [hgt, if_true, hc0]
+        have hm := stepMax_mono cs (c.1, v)
+        simp only at hm
+        rw [if_pos (by linarith)]
+      · simp only [hgt, if_false]
+        rw [ih s hs]
+        by_cases hc0 : c.1 > 0
+        · simp only [hc0, if_true]
+          rw [ih (c.1, v) (by simp; linarith)]
+          simp only
+          by_cases hM : (cs.foldl stepMax (0, 0)).1 > s.1
+          · have : (cs.foldl stepMax (0, 0)).1 > c.1 := by linarith [not_lt.mp hgt]
+            simp [hM, this]
+          · simp only [hM, if_false]
+            by_cases hMc : (cs.foldl stepMax (0, 0)).1 > c.1
+            · simp [hMc, hM]
+            · simp only [hMc, if_false]
+              rw [if_neg hgt]
+        · simp only [hc0, if_false]
+
+/-- **maximum-weight mode**: taking, over the chunks in order, the first chunk result with the largest weight is the one-shot scan -/
+theorem combineMax_eq_oneshot (chunks : List (List Contrib)) :
+    combineMax (chunks.map accMax) = accMax chunks.flatten := by
+  unfold combineMax accMax
+  induction chunks using List.reverseRecOn with
+  | nil => rfl
+  | append_singleton cs c ih =>
+    rw [List.map_append, List.foldl_append, List.flatten_append, List.foldl_append, ih]
+    simp only [List.map_cons, List.map_nil, List.foldl_cons, List.foldl_nil, List.flatten_cons, List.flatten_nil, List.append_nil]
+    have h0 : 0 ≤ (cs.flatten.foldl stepMax (0, 0)).1 := stepMax_mono cs.flatten (0, 0)
+    rw [foldl_stepMax_from c _ h0]
+
+
+
+theorem trunc_le_iff (a : Rat) (c : Int) (hc : 0 ≤ c) : pyTrunc a ≤ c ↔ a < (c : Rat) + 1 := by
+  by_cases ha : 0 ≤ a
+  · rw [pyTrunc_of_nonneg ha]
+    constructor
+    · intro h
+      have := lt_pyFloor_add_one a
+      have h' : ((pyFloor a : Int) : Rat) ≤ (c : Rat) := by exact_mod_cast h
+      linarith
+    · intro h
+      have := pyFloor_le a
+      have : ((pyFloor a : Int) : Rat) < (c : Rat) + 1 := by linarith
+      have : pyFloor a < c + 1 := by exact_mod_cast this
+      omega
+  · have ha' : a < 0 := not_le.mp ha
+    rw [pyTrunc_of_neg ha']
+    have h1 := pyCeil_lt_add_one a
+    have : ((pyCeil a : Int) : Rat) < 1 := by linarith
+    have : pyCeil a < 1 := by exact_mod_cast this
+    have hcq : (0 : Rat) ≤ (c : Rat) := by exact_mod_cast hc
+    constructor
+    · intro _; linarith
+    · intro _; omega
+
+theorem le_trunc_iff (b : Rat) (hb : 0 ≤ b) (c : Int) : c ≤ pyTrunc b ↔ (c : Rat) ≤ b := by
+  rw [pyTrunc_of_nonneg hb]
+  constructor
+  · intro h
+    have := pyFloor_le b
+    have h' : (c : Rat) ≤ ((pyFloor b : Int) : Rat) := by exact_mod_cast h
+    linarith
+  · intro h
+    have := lt_pyFloor_add_one b
+    have : (c : Rat) < ((pyFloor b : Int) : Rat) + 1 := by linarith
+    have : c < pyFloor b + 1 := by exact_mod_cast this
+    omega
+
+/-- which cells of an axis a pixel touches, without the truncation / clipping detail: cell `c` of the grid is touched iff the
+pixel is not skipped and `c` lies in `(u0 - del - 1, u0 + del]` -/
+theorem touches_iff (u0 del : Rat) (n : Nat) (c : Int) (hc : 0 ≤ c ∧ c < n) :
+    touches u0 del n c = true ↔ (¬ u0 < -del) ∧ u0 - del < (c : Rat) + 1 ∧ (c : Rat) ≤ u0 + del := by
+  unfold touches axisCells
+  by_cases hskip : u0 < -del
+  · simp [hskip]
+  · simp only [hskip, if_false, not_false_eq_true, true_and]
+    have hb : 0 ≤ u0 + del := by linarith [not_lt.mp hskip]
+    have h1 := trunc_le_iff (u0 - del) c hc.1
+    have h2 := le_trunc_iff (u0 + del) hb c
+    generalize hI1 : (if pyTrunc (u0 - del) < 0 then (0 : Int) else pyTrunc (u0 - del)) = I1
+    generalize hI2 : (if pyTrunc (u0 + del) ≥ (n : Int) then (n : Int) - 1 else pyTrunc (u0 + del)) = I2
+    have k1 : I1 ≤ c ↔ pyTrunc (u0 - del) ≤ c := by
+      rw [← hI1]; split <;> omega
+    have k2 : c ≤ I2 ↔ c ≤ pyTrunc (u0 + del) := by
+      rw [← hI2]; split <;> omega
+    by_cases hcond : I1 < (n : Int) ∧ I2 ≥ 0 ∧ I1 ≤ I2
+    · rw [if_pos hcond]
+      simp only [Bool.and_eq_true, decide_eq_true_eq]
+      rw [k1, k2, h1, h2]
+    · rw [if_neg hcond]
+      simp only [Bool.false_eq_true, false_iff, not_and]
+      intro ha hbb
+      apply hcond
+      have e1 := k1.mpr (h1.mpr ha)
+      have e2 := k2.mpr (h2.mpr hbb)
+      omega
+
+/-- **output chunking does not change the footprint**: resampling into the sub-grid `[off, off + n)` of a grid of `nfull` cells
+with the pixel position shifted by `off` (what `_delayed_fornav` does) touches cell `c` of the sub-grid iff the one-shot run
+touches cell `c + off` of the full grid -/
+theorem axis_subgrid (u0 del : Rat) (off n nfull : Nat) (hfit : off + n ≤ nfull) (c : Int) (hc : 0 ≤ c ∧ c < n) :
+    touches (u0 - off) del n c = touches u0 del nfull (c + off) := by
+  have hc' : 0 ≤ c + (off : Int) ∧ c + (off : Int) < (nfull : Int) := by omega
+  have h1 := touches_iff (u0 - off) del n c hc
+  have h2 := touches_iff u0 del nfull (c + off) hc'
+  rw [Bool.eq_iff_iff, h1, h2]
+  have hoff : (0 : Rat) ≤ (off : Rat) := by exact_mod_cast Nat.zero_le off
+  have hcq : (0 : Rat) ≤ (c : Rat) := by exact_mod_cast hc.1
+  push_cast
+  constructor
+  · rintro ⟨_, a, b⟩
+    refine ⟨by intro h; linarith, by linarith, by linarith⟩
+  · rintro ⟨_, a, b⟩
+    refine ⟨by intro h; linarith, by linarith, by linarith⟩
+
+
+/-! ### non-vacuity -/
+
+example : writeCell false (1/100) (accAvg [(1/2, some 4), (1/4, none), (1/4, some 8)]) = some (16/3) := by decide +kernel
+example : writeCell true (1/100) (accMax [(1/2, some 4), (3/4, none), (1/2, some 8), (5/8, some 6)]) = some 6 := by decide +kernel
+example : combineMax ([[(1/2, some 4)], [(1/2, some 8), (1/4, some 1)]].map accMax) = (1/2, 4) := by decide +kernel
+example : axisCells (7/2) (3/2) 4 = some (2, 3) := by decide +kernel
+example : axisCells (-2) (3/2) 4 = none := by decide +kernel
+/-- a flipped area (y grows downwards in the array): ll2cr still agrees with the area -/
+example : ll2crPoint (ll2crParams ⟨0, 40, 40, 0, 4, 4⟩) (some (15, 25)) = some (1, 2) := by decide +kernel
 
 end PyresampleModel.C08
